@@ -17,6 +17,7 @@ EXPLANATION = (
     "and of the returned point into the dense residual linearisation and jetexpand_residual."
     "  The continuation condition is read semantically: simplified under i == 0 it may only contain the budget (the first Gauss-Newton step is always taken, so a feasible but non-optimal start cannot be returned unchanged), simplified under i >= 1 its conjuncts are exactly {constraint tolerance, budget, increment}."
 )
+TRUSTED_VALUE_PRIMITIVES = ("lstsq_svd",)  # default least-squares solve of the Gauss-Newton iteration
 LEVEL = "other"
 TECHNIQUE = "abstract interpretation over the AST: value-numbering with affine normal form, provenance/identity of record fields, inductive check of the while-loop state"
 LEVEL_TEXT = (
